@@ -399,6 +399,12 @@ impl SocksResponse {
         let dport = socket.read_u16().await.context("read port")?;
         let dst = socket.read_u32().await.context("read dst")?;
         let target = (dst, dport).into();
+        // map v4 reply code to v5: 90 is "request granted"
+        let cmd = match cmd {
+            90 => SOCKS_REPLY_OK,
+            SOCKS_REPLY_OK => SOCKS_REPLY_GENERAL_FAILURE,
+            x => x,
+        };
         Ok(Self {
             version: 4,
             cmd,
